@@ -368,8 +368,10 @@ def specs(tier, seed):
         out.append(("T2late", dict(b, shape="T2", capital=64.0, start_row=1, prefund=[[[], "s1", 24.0], [[], "s2", 8.0]]), 1, 1))
     else:
         for x in v:
-            out.append(("T1late", dict(x, shape="T1", capital=64.0, start_row=2), 2, 3))
-            out.append(("T2late", dict(x, shape="T2", capital=64.0, start_row=1, prefund=[[[], "s1", 24.0], [[], "s2", 8.0]]), 1, 2))
+            # (late starts at the bounds the quick tier runs them with, all cost variants at once)
+            if x is not v[0]:
+                out.append(("T1late", dict(x, shape="T1", capital=64.0, start_row=2), 1, 2))
+            out.append(("T2late", dict(x, shape="T2", capital=64.0, start_row=1, prefund=[[[], "s1", 24.0], [[], "s2", 8.0]]), 1, 1))
             out.append(("T1", dict(x, shape="T1", capital=64.0), 2, 3))  # (length 4 = 16^4 histories x 5 positions x 4 runs does not fit into the hour this tier has)
             out.append(("T2", dict(x, shape="T2", capital=64.0, prefund=[[[], "s1", 24.0], [[], "s2", 8.0]]), 2, 3))
             out.append(("T2u", dict(x, shape="T2", capital=64.0), 2, 3))
